@@ -49,9 +49,10 @@ CHECKS["C09"] = dict(
     entries=[
         dict(name="harness_c09_value", quick={"B": 1, "kmax": 3}, thorough={"B": 3, "kmax": 4, "_wall": 2400}),
         dict(name="harness_c09_identity", quick={"B": 2}, thorough={"B": 4}),
+        dict(name="harness_c09_multinomial", quick={"kn": 2}, thorough={"kn": 3}),
     ],
     anchors=["SymEngine::ExpandVisitor", "SymEngine::expand("],
-    bounds="6 shapes: (c0+c1 x+c2 y)^k k<=3 (4), products of two/three linear forms incl. an opaque f(x) atom, k*(l1*l2)+l3^2, (l1*l2)^-2, rational coefficients; integer coefficient slots |c|<=1 (3) symbolic (exact Z), x, y, f(x) arbitrary reals; identity decision for (ax+b)(cx+d) vs e2 x^2+e1 x+e0",
+    bounds="6 shapes: (c0+c1 x+c2 y)^k k<=3 (4), products of two/three linear forms incl. an opaque f(x) atom, k*(l1*l2)+l3^2, (l1*l2)^-2, rational coefficients; integer coefficient slots |c|<=1 (3) symbolic (exact Z), x, y, f(x) arbitrary reals; identity decision for (ax+b)(cx+d) vs e2 x^2+e1 x+e0; multinomial path: every sum of >= 2 terms from {x, z, x*z, y*z, x*y, y} to the power 3..4 (thorough 3..5): value at all real x, y, z, expandedness, and agreement with the stepwise expansion",
     outside=["more than 3 factors", "exponents above 4", "non-polynomial atoms other than one opaque function application"],
     assumptions=["value oracle D2 (vlib/veval.h): Add/Mul/Pow node meaning over the reals"],
 )
@@ -106,12 +107,13 @@ CHECKS["C21"] = dict(
         dict(name="harness_c21_mul", quick={"nmax": 2, "B": 7, "nonneg": 1}, thorough={"nmax": 3, "B": 15, "nonneg": 0}),
         dict(name="harness_c21_linear", quick={"B": 1000}, thorough={"B": 1000000}),
         dict(name="harness_c21_pow_div", quick={"B": 1, "kmax": 3, "enum2": 1}, thorough={"B": 3, "_wall": 2400}),
+        dict(name="harness_c21_pow_high", quick={"B": 2, "nk": 3, "enum2": 1}, thorough={"B": 3, "nk": 5, "enum2": 1}),
         dict(name="harness_c21_divides", quick={"B": 1, "enum2": 1}, thorough={"B": 2, "_wall": 2400}),
         dict(name="harness_c21_convert", quick={"B": 1, "enum2": 1}, thorough={"B": 4, "_wall": 2400}),
         dict(name="harness_c21_urat", quick={"B": 4}, thorough={"B": 10}),
     ],
     anchors=["SymEngine::UIntDict::mul", "SymEngine::UIntDict::eval_bit", "SymEngine::divides_upoly", "SymEngine::pow_upoly", "SymEngine::URatPoly"],
-    bounds="UIntPoly: all length pairs up to 3x3 terms with symbolic coefficients 0<=c<=7 (quick; thorough: -15..15 all signs and zeros) against the schoolbook convolution (Kronecker substitution is executed symbolically); add/sub/neg/eval/diff/eq on 3-term polynomials |c|<=1000; pow up to 2 (thorough 3) and exact division (p*q)/q on 2-term polynomials with coefficients |c|<=1 (3), exact division by 3-term divisors |c|<=1 (2) incl. cancelling products (quick tier: the second operand and the leading coefficient are enumerated as paths, the first operand is symbolic); from_basic/as_symbolic round trip; URatPoly products and sums with denominators 1..3",
+    bounds="UIntPoly: all length pairs up to 3x3 terms with symbolic coefficients 0<=c<=7 (quick; thorough: -15..15 all signs and zeros) against the schoolbook convolution (Kronecker substitution is executed symbolically); add/sub/neg/eval/diff/eq on 3-term polynomials |c|<=1000; pow up to 2 (thorough 3), powers 7, 6, 5 (thorough also 11, 13) of a0 + a1 x with |a|<=2 (3) (coefficients enumerated as paths), and exact division (p*q)/q on 2-term polynomials with coefficients |c|<=1 (3), exact division by 3-term divisors |c|<=1 (2) incl. cancelling products (quick tier: the second operand and the leading coefficient are enumerated as paths, the first operand is symbolic); from_basic/as_symbolic round trip; URatPoly products and sums with denominators 1..3",
     outside=["more than 3 terms", "UExprPoly", "multi-limb coefficients"],
 )
 
